@@ -71,3 +71,122 @@ func justiceLockTime(r *an.Run) {
 			}
 		})
 }
+
+// scriptPathPairs: a taproot script-path spend needs the witness script and
+// the control block of the SAME leaf.  Inside one function that prepares sign
+// descriptors, every leaf a control block is requested for must also be the
+// leaf of a witness script that function obtains.
+func scriptPathPairs(r *an.Run, id string, floor int) {
+	p := r.Prog
+	r.Obl("control-block-matches-witness-script-leaf", "MIRROR",
+		"in every function of lnwallet and contractcourt that calls CtrlBlockForPath, the script paths it requests control blocks for are (as a multiset) among the script paths it requests witness scripts for with WitnessScriptForPath",
+		"a control block that proves another leaf than the one whose script is revealed makes the taproot script spend invalid: the output cannot be swept (revoked to_local, HTLC, delayed to_local)", floor,
+		func(o *an.Obl) {
+			n := 0
+			for _, f := range p.Funcs(false, "lnwallet", "contractcourt") {
+				if f.Lit != nil {
+					continue
+				}
+				ctrl := map[string]int{}
+				wit := map[string]int{}
+				var first an.Site
+				for _, fn := range append([]*an.Func{f}, f.Lits...) {
+					for _, s := range fn.AllCalls(false) {
+						c := s.Node.(*ast.CallExpr)
+						sel, ok := c.Fun.(*ast.SelectorExpr)
+						if !ok || len(c.Args) != 1 {
+							continue
+						}
+						switch sel.Sel.Name {
+						case "CtrlBlockForPath":
+							ctrl[fn.Canon(c.Args[0])]++
+							if first.Node == nil {
+								first = s
+							}
+						case "WitnessScriptForPath":
+							wit[fn.Canon(c.Args[0])]++
+						}
+					}
+				}
+				if len(ctrl) == 0 {
+					continue
+				}
+				n++
+				o.Site("%s: control blocks for %v, witness scripts for %v", f.ID, ctrl, wit)
+				for path, k := range ctrl {
+					if wit[path] < k {
+						o.FailAt(f.ID+"#ctrl-block-leaf:"+path, first.Where(), "%s requests %d control block(s) for %s but only %d witness script(s) for that leaf (witness scripts: %v)", f.ID, k, path, wit[path], wit)
+					}
+				}
+			}
+			if n < floor {
+				o.FailAt("CtrlBlockForPath#functions", "", "expected at least %d functions that request control blocks, found %d", floor, n)
+			}
+		})
+}
+
+// secondLevelConversion: when the cheater advanced an HTLC to its second
+// level, the breached output is re-pointed at the second-level output.  With
+// SINGLE|ANYONECANPAY second-level transactions that output sits at the index
+// of the spending INPUT, not at index 0.
+func secondLevelConversion(r *an.Run) {
+	p := r.Prog
+	r.Obl("second-level-output-is-at-the-spender-input-index", "ROLE",
+		"convertToSecondLevelRevoke re-points the breached output at (spending tx hash, spendDetails.SpenderInputIndex), takes amount and pkScript from spendingTx.TxOut[that same index], and swaps in the stored second-level witness script and tap tweak; updateBreachInfo reads the spending input with that index as well",
+		"second-level HTLC transactions of anchor and taproot channels can carry fee inputs in front or be aggregated: index 0 is another party's output, the justice transaction is rejected or has duplicate inputs", 6,
+		func(o *an.Obl) {
+			f := p.Func("contractcourt.convertToSecondLevelRevoke")
+			idx := "$p2.SpenderInputIndex"
+			want := map[string]string{
+				"bo.outpoint":                 "OutPoint{Hash: $p2.SpendingTx.TxHash(), Index: " + idx + "}",
+				"newAmt":                      "$p2.SpendingTx.TxOut[" + idx + "].Value",
+				"bo.signDesc.Output.PkScript": "$p2.SpendingTx.TxOut[" + idx + "].PkScript",
+				"bo.signDesc.Output.Value":    "$p2.SpendingTx.TxOut[" + idx + "].Value",
+				"bo.amt":                      "Amount($p2.SpendingTx.TxOut[" + idx + "].Value)",
+				"bo.signDesc.WitnessScript":   "$p0.secondLevelWitnessScript",
+				"bo.signDesc.TapTweak":        "$p0.secondLevelTapTweak[:]",
+			}
+			seen := map[string]bool{}
+			for _, v := range f.Graph().V {
+				as, ok := v.Node.(*ast.AssignStmt)
+				if !ok || len(as.Lhs) != 1 || len(as.Rhs) != 1 {
+					continue
+				}
+				l := an.Text(as.Lhs[0])
+				w, ok := want[l]
+				if !ok {
+					continue
+				}
+				seen[l] = true
+				got := f.Canon(as.Rhs[0])
+				o.Site("%s = %s", l, got)
+				// compare modulo the import path prefix of a type conversion / literal
+				strip := func(x string) string { return reSub(`[A-Za-z0-9_./-]+/v2\.`, "", x) }
+				if strip(got) != strip(w) && strip(got) != w {
+					o.FailAt(f.ID+"#"+l, f.Where(as.Pos()), "%s is set to %s, expected %s", l, got, w)
+				}
+			}
+			for l := range want {
+				if !seen[l] {
+					o.FailAt(f.ID+"#missing-"+l, f.Where(f.Body.Pos()), "the conversion no longer sets %s", l)
+				}
+			}
+			u := p.Func("contractcourt.updateBreachInfo")
+			n := 0
+			for _, v := range u.Graph().V {
+				as, ok := v.Node.(*ast.AssignStmt)
+				if !ok || len(as.Lhs) != 1 || an.Text(as.Lhs[0]) != "txIn" {
+					continue
+				}
+				n++
+				got := an.Text(as.Rhs[0])
+				o.Site("updateBreachInfo txIn = %s", got)
+				if got != "s.detail.SpendingTx.TxIn[s.detail.SpenderInputIndex]" {
+					o.FailAt(u.ID+"#spending-input", u.Where(as.Pos()), "the spending input examined is %s", got)
+				}
+			}
+			if n != 1 {
+				o.FailAt(u.ID+"#spending-input-site", u.Where(u.Body.Pos()), "expected one read of the spending input, found %d", n)
+			}
+		})
+}
